@@ -48,6 +48,7 @@ structure Token where
   content : Content
   sigTime : Option (Option Int)  -- authenticated signing-time attribute (outer none = missing)
   tsa : Nat                 -- certificate of the signer
+  mdOK : Bool := true       -- the messageDigest attribute equals the digest of the embedded content
   deriving Repr, DecidableEq
 
 inductive Body where
@@ -93,6 +94,7 @@ structure CounterSig where
 def p7Verify (t : Token) : Res Unit :=
   if t.content = .absent then .err "missing-content"
   else if t.nSigners = 0 then .err "not-signed"
+  else if t.mdOK = false then .err "digest"
   else if t.sigOK = false then .err "sig"
   else .ok ()
 
@@ -146,12 +148,15 @@ def verifyRfcToken (H : Nat → Nat) (guards : Bool) (t : Token) (ed : Nat) : Re
     | .diverge => .diverge
     | .ok i =>
       if i.algOK = false ∨ i.imprint ≠ H ed then .err "imprint"
+      else if t.mdOK = false then .err "digest"      -- finishVerify -> SignerInfo.Verify: messageDigest vs TSTInfo blob
       else if t.sigOK = false then .err "sig"
       else .ok ⟨i.time, t.tsa, t.serial⟩
 
-/-- PKCS#9 counterSignature attribute: a SignerInfo whose content is the signature value -/
+/-- PKCS#9 counterSignature attribute: a SignerInfo whose content is the signature value.  There is no
+embedded content: the one comparison Go makes is messageDigest = hash(ed), which holds exactly when the
+attribute matches the value the token names (`mdOK`) and that value is `ed`. -/
 def verifyCounterSign (t : Token) (ed : Nat) : Res CounterSig :=
-  if t.content ≠ .data ed then .err "digest"
+  if t.content ≠ .data ed ∨ t.mdOK = false then .err "digest"
   else if t.sigOK = false then .err "sig"
   else match t.sigTime with
     | none => .err "signing-time"
